@@ -424,7 +424,7 @@ fn random_job(seed: u64, cases: u32, rep: &mut Report) {
 
 type NErr<'a> = nom::error::VerboseError<&'a [u8]>;
 
-fn opts(order: bool, tree: bool, acyclic: bool) -> ParseOptions {
+pub fn opts(order: bool, tree: bool, acyclic: bool) -> ParseOptions {
     ParseOptionsBuilder::default().var_order(order).clause_tree(tree).check_acyclic(acyclic).build().unwrap()
 }
 
@@ -439,7 +439,7 @@ pub fn parse_all(data: &[u8], o: &ParseOptions) -> Result<[Option<Problem>; 3], 
     r.map_err(|e| format!("parser-panic: {}", panic_msg(&e)))
 }
 
-const SEEDS: &[&[u8]] = &[
+pub const SEEDS: &[&[u8]] = &[
     b"aag 3 2 0 1 1\n2\n4\n6\n6 2 4\ni0 x\ni1 y\no0 out\nc\ncomment\n",
     b"aag 7 2 1 2 4\n2\n4\n6 8 1\n6\n7\n8 4 10\n10 13 15\n12 2 6\n14 3 7\n",
     b"aag 1 0 1 2 0\n2 3\n2\n3\n",
